@@ -18,15 +18,21 @@ NOGO_POLY = [[[8.0, 4.0], [14.0, 4.0], [14.0, 9.0], [8.0, 9.0]]]
 ROW_POLY = [[2.0, 3.0], [42.0, 3.0], [42.0, 28.0], [2.0, 28.0]]
 
 
-def set_pipe(m, pipe: str):
+# a second value set in which no two numbers coincide (so that a swapped or duplicated field shows)
+SINGLE_U_DISTINCT = dict(inner_diameter=0.0269, outer_diameter=0.0334, shank_spacing=0.0323, roughness=2.0e-6, conductivity=0.389, rho_cp=1600000.0)
+COAX_DISTINCT = dict(inner_pipe_d_in=0.0402, inner_pipe_d_out=0.048, outer_pipe_d_in=0.0954, outer_pipe_d_out=0.108, roughness=2.0e-6,
+                     conductivity_inner=0.1, conductivity_outer=0.43, rho_cp=1600000.0)
+
+
+def set_pipe(m, pipe: str, distinct: bool = False):
     if pipe == "single":
-        m.set_single_u_tube_pipe(**SINGLE_U)
+        m.set_single_u_tube_pipe(**(SINGLE_U_DISTINCT if distinct else SINGLE_U))
     elif pipe == "double_parallel":
-        m.set_double_u_tube_pipe_parallel(**DOUBLE_U)
+        m.set_double_u_tube_pipe_parallel(**(SINGLE_U_DISTINCT if distinct else DOUBLE_U))
     elif pipe == "double_series":
-        m.set_double_u_tube_pipe_series(**DOUBLE_U)
+        m.set_double_u_tube_pipe_series(**(SINGLE_U_DISTINCT if distinct else DOUBLE_U))
     elif pipe == "coaxial":
-        m.set_coaxial_pipe(**COAX)
+        m.set_coaxial_pipe(**(COAX_DISTINCT if distinct else COAX))
     else:
         raise ValueError(pipe)
 
@@ -64,11 +70,11 @@ def set_geometry(m, method: str, geo: dict | None = None):
 def build_manager(method: str, pipe: str = "single", flow: str = "borehole", flow_rate: float = 0.5, loads=None,
                   months: int = 24, max_eft: float = 35.0, min_eft: float = 5.0, hmax: float = 135.0, hmin: float = 60.0,
                   cap=None, cont: bool = False, geo: dict | None = None, fluid=("Water", 0.0), soil=(2.0, 2343493.0, 18.3),
-                  grout=(1.0, 3901000.0), borehole=(96.0, 2.0, 0.150), do_set_design: bool = True):
+                  grout=(1.0, 3901000.0), borehole=(96.0, 2.0, 0.150), do_set_design: bool = True, distinct_pipe: bool = False):
     from ghedesigner.manager import GHEManager
 
     m = GHEManager()
-    set_pipe(m, pipe)
+    set_pipe(m, pipe, distinct_pipe)
     m.set_soil(conductivity=soil[0], rho_cp=soil[1], undisturbed_temp=soil[2])
     m.set_grout(conductivity=grout[0], rho_cp=grout[1])
     m.set_fluid(fluid_name=fluid[0], concentration_percent=fluid[1])
